@@ -2,8 +2,10 @@ package yqlib
 
 import (
 	"bufio"
+	"encoding/xml"
 	"io"
 	"strings"
+	"unicode"
 )
 
 // C14 — codecs are faithful (claimed only where the escaping / structure is yq's own code).
@@ -265,4 +267,59 @@ func VerifC14CSV() {
 		}
 	}
 	verifCover("C14/csv/end")
+}
+
+// ---- (4) XML: decoding builds the value the token stream denotes ----
+
+var c14XMLTexts = []string{"x", " x ", "café", "日本", "a b", " é ", "tab\tin", "ü", " \n lead", "trail é \n"}
+
+// c14TrimRef: leading/trailing non-graphic characters and spaces removed (the documented meaning of trimNonGraphic).
+func c14TrimRef(s string) string {
+	rs := []rune(s)
+	keep := func(r rune) bool { return unicode.IsGraphic(r) && !unicode.IsSpace(r) }
+	i, j := 0, len(rs)
+	for i < j && !keep(rs[i]) {
+		i++
+	}
+	for j > i && !keep(rs[j-1]) {
+		j--
+	}
+	return string(rs[i:j])
+}
+
+// VerifC14XMLDecode: <r><a>TEXT</a>[<a>TEXT2</a>]<b id="…">TEXT</b></r> delivered as library tokens decodes to a
+// map with text content trimmed, repeated children as a sequence and attributes as prefixed keys.
+func VerifC14XMLDecode() {
+	t1 := c14XMLTexts[verifChoice("t1", len(c14XMLTexts))]
+	t2 := c14XMLTexts[verifChoice("t2", 3)]
+	repeated := verifChoice("repeated", 2) == 1
+	el := func(name string, text string, attrs ...xml.Attr) []xml.Token {
+		return []xml.Token{xml.StartElement{Name: xml.Name{Local: name}, Attr: attrs}, xml.CharData([]byte(text)), xml.EndElement{Name: xml.Name{Local: name}}}
+	}
+	toks := []xml.Token{xml.StartElement{Name: xml.Name{Local: "r"}}}
+	toks = append(toks, el("a", t1)...)
+	if repeated {
+		toks = append(toks, el("a", t2)...)
+	}
+	toks = append(toks, el("b", t2, xml.Attr{Name: xml.Name{Local: "id"}, Value: t1})...)
+	toks = append(toks, xml.EndElement{Name: xml.Name{Local: "r"}})
+	verifXMLTokens = toks
+	prefs := ConfiguredXMLPreferences
+	dec := NewXMLDecoder(prefs)
+	_ = dec.Init(nil)
+	node, err := dec.Decode()
+	verifAssert(err == nil && node != nil, "C14/xml-decode-error")
+	if err != nil || node == nil {
+		return
+	}
+	got := vDump(node)
+	wantA := "<!!str " + c14TrimRef(t1) + ">"
+	if repeated {
+		wantA = "[<!!str " + c14TrimRef(t1) + ">, <!!str " + c14TrimRef(t2) + ">]"
+	}
+	want := "{<!!str r>: {<!!str a>: " + wantA + ", <!!str b>: {<!!str " + prefs.ContentName + ">: <!!str " + c14TrimRef(t2) + ">, <!!str " + prefs.AttributePrefix + "id>: <!!str " + t1 + ">}}}"
+	verifObserve("got", got)
+	verifObserve("want", want)
+	verifAssert(got == want, "C14/xml-decoded-value-differs")
+	verifCover("C14/xml/end")
 }
